@@ -139,6 +139,8 @@ pub fn real_name(label: &str) -> String {
         "uni" => "h\u{e9}\u{e9}".to_string(),
         "LONG" => "x".repeat(65536),
         "XLONG" => "y".repeat(65537),
+        "XUNI" => "\u{e9}".repeat(40000),
+        "LUNI" => "\u{e8}".repeat(32768),
         s => s.to_string(),
     }
 }
@@ -148,6 +150,10 @@ pub fn label_of(name: &str) -> String {
         String::new()
     } else if name == "h\u{e9}\u{e9}" {
         "uni".into()
+    } else if name.len() == 80000 {
+        "XUNI".into()
+    } else if name.len() == 65536 && name.starts_with('\u{e8}') {
+        "LUNI".into()
     } else if name.len() == 65536 {
         "LONG".into()
     } else if name.len() == 65537 {
